@@ -207,9 +207,15 @@ func init() {
 			if tier == "thorough" && bb > 0 {
 				shards = 8 // the subtrees below the first-level alternatives, dealt round-robin to worker processes
 			}
+			bud := budget
+			if tier == "thorough" && (strings.Contains(n, "sync") || strings.Contains(n, "idle")) {
+				// timers wake every connection: two deviations do not complete even sharded; the
+				// evidence then states the bound that did (1) - no point in burning the full budget
+				bud = 600
+			}
 			for i := 0; i < shards; i++ {
 				p, _ := json.Marshal(faultParams{Script: n, Bound: bb, ShardIdx: i, ShardN: shards})
-				jobs = append(jobs, check.Job{Kind: "c08s3", Name: "S3:fault-" + n, Params: p, BudgetS: budget, CrashIsViolation: true})
+				jobs = append(jobs, check.Job{Kind: "c08s3", Name: "S3:fault-" + n, Params: p, BudgetS: bud, CrashIsViolation: true})
 			}
 		}
 		return jobs
